@@ -221,8 +221,21 @@ func (g *egen) str(d int) string {
 		return r.pick("s0", "c_s0", "mk", "obj.v")
 	case 2, 3:
 		return fmt.Sprintf("%s[%s]", g.strList(d-1), g.idx(d-1))
-	case 4, 5:
+	case 4:
 		return fmt.Sprintf(`join("-", %s)`, g.strList(d-1))
+	case 5:
+		// calls with an expanding final argument: one, two or many elements
+		// behind the "..." (the expanded list can fit the spare capacity of
+		// the call's own argument slice or not)
+		switch r.n(4) {
+		case 0:
+			return fmt.Sprintf(`join("-", [%s]...)`, g.strList(d-1))
+		case 1:
+			return fmt.Sprintf(`format("%%s", [%s]...)`, g.str(d-1))
+		case 2:
+			return fmt.Sprintf(`format("%%s/%%s", %s, [%s]...)`, g.str(d-1), g.str(d-1))
+		}
+		return fmt.Sprintf(`join("+", %s, [[%s], [%s]]...)`, g.strList(d-1), g.str(d-1), g.str(d-1))
 	case 6:
 		return fmt.Sprintf("upper(%s)", g.str(d-1))
 	case 7:
@@ -278,6 +291,12 @@ func (g *egen) num(d int) string {
 	case 5:
 		return fmt.Sprintf("cb_num(%s)", g.num(d-1))
 	case 6:
+		switch r.n(3) {
+		case 0:
+			return fmt.Sprintf("max([%s]...)", g.num(d-1))
+		case 1:
+			return fmt.Sprintf("min(%s, [%s]...)", g.num(d-1), g.num(d-1))
+		}
 		return fmt.Sprintf("max(concat([0], %s)...)", g.numList(d-1))
 	case 7:
 		return fmt.Sprintf("length(%s[*])", g.outerList(d-1))
